@@ -151,3 +151,65 @@ Theorem model_outputs_pass_spec :
   forall c : ctx, spec_tx (model_case c) = true /\ agree_tx (model_case c) = true.
 Proof. exact Proofs.C29.model_outputs_pass_spec. Qed.
 Print Assumptions model_outputs_pass_spec.
+
+(* ---- results are values: call histories ----
+   [call] lists every function of the property that hands out a byte slice, a string or a
+   structure holding slices; [call_result Hf] is the function each computes ([Hf] in the place of
+   double SHA-256).  A history runs against the store of the results handed out so far
+   ([step]: append the new result, touch nothing else).  The results of ANY history are the
+   pure function mapped over the calls: a call's result depends on its own arguments only,
+   neither on the calls before it nor on the calls after it. *)
+Theorem history_is_map :
+  forall (Hf : list N -> list N) (cs : list call),
+    run_history Hf cs = map (call_result Hf) cs.
+Proof. exact Proofs.C29.history_is_map. Qed.
+Print Assumptions history_is_map.
+
+(* whatever is called before and after, the holder of a result holds that call's own value;
+   the results of a prefix are not changed by the rest; a store of older results is kept *)
+Theorem history_results_are_values :
+  forall (Hf : list N -> list N) (pre : list call) (c : call) (post : list call),
+    nth_error (run_history Hf (pre ++ c :: post)) (length pre) = Some (call_result Hf c).
+Proof. exact Proofs.C29.history_results_are_values. Qed.
+Print Assumptions history_results_are_values.
+
+Theorem history_prefix_stable :
+  forall (Hf : list N -> list N) (pre post : list call) (store : list hres),
+    firstn (length pre) (run_history Hf (pre ++ post)) = run_history Hf pre /\
+    firstn (length store) (run_history_from Hf store post) = store.
+Proof. intros; split; [apply Proofs.C29.history_prefix_stable|apply Proofs.C29.history_keeps_store]. Qed.
+Print Assumptions history_prefix_stable.
+
+(* the executable history property used by the correspondence check is sound: for every entry
+   the result read again at the end of the history (after the later calls, a collection and
+   the caller overwriting its argument buffers) is the result read right after the call, the
+   call left its arguments alone, the value held at the end still round-trips, and a
+   transaction hash held at the end is the digest ([Hf]; in the check: a table of double
+   SHA-256 values computed with Go's crypto/sha256) of the transaction as it was when the call
+   was made ... *)
+Theorem hspec_ok_sound :
+  forall (Hf : list N -> list N) (h : list hentry),
+    hspec_ok Hf h = true ->
+    forall e, In e h ->
+      x_ores (he_late e) = x_ores (he_now e) /\
+      he_input_kept e = true /\
+      (forall s v, he_call e = HToVarLen s -> he_late e = OBytes v ->
+         bytes_ok (expand s) = true -> len (expand s) < 2 ^ 63 ->
+         script_from_var_len (expand v) = Some (expand s)) /\
+      (forall f c b, he_call e = HSerialize f c -> he_late e = OBytes b ->
+         tx_wf (x_tx c) = true -> tx_ins (x_tx c) <> [] ->
+         deserialize (expand b)
+         = Some (match f with Witness => x_tx c | Standard => strip_witness (x_tx c) end)) /\
+      (forall v w, he_call e = HWriteCompact v -> he_late e = OBytes w -> v < two64 ->
+         cs_decode (expand w) = ROk v []) /\
+      (forall f c, he_call e = HTxHash f c ->
+         x_ores (he_late e) = VBytes (Hf (serialize f (x_tx c)))).
+Proof. exact Proofs.C29.hspec_ok_sound. Qed.
+Print Assumptions hspec_ok_sound.
+
+(* ... and it holds of the model's own results for every history *)
+Theorem model_history_passes_spec :
+  forall (Hf : list N -> list N) (cs : list call),
+    hspec_ok Hf (model_hist Hf cs) = true /\ hagree_with Hf (model_hist Hf cs) = true.
+Proof. exact Proofs.C29.model_history_passes_spec. Qed.
+Print Assumptions model_history_passes_spec.
